@@ -212,6 +212,20 @@ def validate_evidence(ev):
             assert k in ev, k
 
 
+def guard(run, signature, fn, *args, default=0):
+    """Run a block that calls into aurel from the parent process: an
+    exception escaping it is a violation of the property (the library raised
+    where it should have returned), not a fault of the harness."""
+    try:
+        return fn(*args)
+    except HarnessFault:
+        raise
+    except Exception:      # noqa: BLE001
+        run.violation(signature, "exception: "
+                      + traceback.format_exc()[-500:], {'block': signature})
+        return default
+
+
 class HarnessFault(Exception):
     """Raised when the harness itself cannot be trusted (exit code 2)."""
 
